@@ -69,7 +69,14 @@ def task_registries(program):
 
 
 def _registry_of(node):
-    """Name of the Function registry an expression denotes (cls.X / Function.X), else None."""
+    """Name of the Function registry an expression denotes (cls.X / Function.X, or a local that was bound to it once), else None."""
+    if isinstance(node, ast.Name):
+        from ..repo import deref_local, enclosing_func
+        fn = enclosing_func(node)
+        if fn is not None:
+            v = deref_local(fn, node)
+            if v is not node:
+                return _registry_of(v)
     d = dotted(node)
     if d and "." in d:
         head, attr = d.rsplit(".", 1)
@@ -122,12 +129,17 @@ def registries_emptied(ctx, program, rid, only=None):
     all_regs = task_registries(program)
     regs = all_regs
     ev = {}
-    for reg, kind in regs.items():
-        ev[f"cls.{reg}.pop"] = reg
-        ev[f"cls.{reg}.discard"] = reg
-        ev[f"cls.{reg}.remove"] = reg
+    # locals of run_coro that are bound once to a registry (`task2name = cls.unique_task2name`) denote it
+    aliases = {n.targets[0].id: _registry_of(n.value) for n in body_walk(fn) if isinstance(n, ast.Assign) and len(n.targets) == 1 and isinstance(n.targets[0], ast.Name)
+               and _registry_of(n.value) in regs and _registry_of(n.targets[0]) in regs}
+    heads = {f"cls.{reg}": reg for reg in regs}
+    heads.update(aliases)
+    for head, reg in heads.items():
+        ev[f"{head}.pop"] = reg
+        ev[f"{head}.discard"] = reg
+        ev[f"{head}.remove"] = reg
     pol = FlowPolicy(program, events=[lambda l: ev.get(l) and f"remove:{ev[l]}", lambda l: "add" if l == "cls.our_tasks.add" else None],
-                     locals_={"task", "cls"}, no_raise={"asyncio.current_task", "cls.task_done_callback_ctx"})
+                     locals_={"task", "cls"} | set(aliases), no_raise={"asyncio.current_task", "cls.task_done_callback_ctx"})
     pol.atom_attrs = set(regs)
     out = run_flow(program, RUN_CORO, pol)
     n = 0
@@ -145,6 +157,14 @@ def registries_emptied(ctx, program, rid, only=None):
                 r = _reg_from_term(atom[1].args[1])
                 if r:
                     notin.add(r)
+            # `reg.get(task) is None` (or a local holding that result tested): the task has no entry
+            if isinstance(atom, tuple) and len(atom) == 2 and isinstance(atom[1], App) and atom[1].op in ("is", "isnot") and (atom[1].op == "is") == bool(val) \
+                    and Const(None) in atom[1].args:
+                for a in atom[1].args:
+                    if isinstance(a, App) and a.op == "res" and a.args and isinstance(a.args[0], Const) and str(a.args[0].v).endswith(".get"):
+                        r = heads.get(str(a.args[0].v)[:-4])
+                        if r:
+                            notin.add(r)
         for reg in regs:
             if reg not in removed and reg not in notin:
                 missing.setdefault(reg, []).append(desc)
@@ -560,6 +580,7 @@ def callback_mutation_table(ctx, program, rid, only=None):
 
         pol = _LivePolicy(program, may_raise_all=False, cancel=False, summaries={"asyncio.current_task": lambda i, n, a, k, c, o: [(c, Const("T"))]})
         pol.on_callback = call_func
+        pol.track_aliases = True  # a registry read into a local (`name2task = cls.unique_name2task`) is still the registry
         pol.on_log = lambda i, n, a, k, c, o: [(c.hset("$logged", Const(c.heap.get("$logged", Const(0)).v + 1)), NONE)]
         heap = {"Function.task2cb": DictV([(Const("T"), DictV([(Const("ctx"), ObjV("actx", "AstEval")), (Const("cb"), DictV([(Const("cb1"), info()), (Const("cb2"), info()), (Const("cb3"), info())]))]))]),
                 "Function.our_tasks": ListV((), "set"), "Function.unique_task2name": DictV([]), "Function.unique_name2task": DictV([]), "Function.task2context": DictV([])}
